@@ -3,6 +3,7 @@ package props
 import (
 	"encoding/json"
 	"fmt"
+	"os"
 	"reflect"
 	"runtime/debug"
 	"strings"
@@ -67,15 +68,23 @@ func tryDecode(typ reflect.Type, data []byte) (decoded bool, stage string, pval 
 	return decoded, stage, nil, ""
 }
 
+// repoDir is where the library under test lives (/repo unless the driver runs on a scratch copy).
+func repoDir() string {
+	if d := os.Getenv("VERIF_REPO_DIR"); d != "" {
+		return strings.TrimRight(d, "/")
+	}
+	return "/repo"
+}
+
 // panicSite extracts the first /repo frame of a stack for classification.
 func panicSite(stack string) string {
 	for _, line := range strings.Split(stack, "\n") {
 		line = strings.TrimSpace(line)
-		if strings.HasPrefix(line, "/repo/") {
+		if strings.HasPrefix(line, repoDir()+"/") {
 			if i := strings.Index(line, " "); i > 0 {
 				line = line[:i]
 			}
-			return strings.TrimPrefix(line, "/repo/")
+			return strings.TrimPrefix(line, repoDir()+"/")
 		}
 	}
 	return "unknown"
